@@ -37,6 +37,19 @@ One case = one world of harness/setupsim.py (one stack, products p1..pn with ran
               version of the product; top tables that HAVE BEEN EXPANDED BEFORE by an earlier build (stale pins, versions
               no longer declared, blocks on type != exact, other spellings of the generated lines, envSet lines and a
               flavor conditional behind the setups) - their dependencies are set up one by one, then the table expanded;
+  * ENTRANCES and SWITCHES: every case carries the entrance of the fresh-instance expansion - app.expandTableFile called
+              as the command calls it (switches by keyword), or the command itself, eups.cmd.EupsCmd(["expandtable",
+              "-i", [-N | --noVersionExpressions], [--noExact], [-F], [-p a=v:b=w], <dir>/<top>.table]) which builds
+              its own Eups from the environment, infers the product from the file name and renames the text over the
+              file - and the two switches expandVersions / addExactBlock, each on or off (both on in three cases of
+              four; a directed family has one or both off over lines with constraints of every form).  The instance
+              that did the setup expands through app.expandTableFile with the same switches.  The model is
+              Model/ExpandOpt.v (expand_text_opt; at the defaults it is expand_text: a theorem); the text is compared
+              character for character as before.  With the exact block switched off there is nothing to replay;
+              with the expressions switched off the exact block is replayed as always;
+  * VERSIONS over the whole legal alphabet (directed family): dashes followed by letters that are also setup flags
+              (2.3-jdk11, 1.0-jessie, 1.0-t2, 3.1-k8, 7-f), two dashes, plus signs, on products named by the lines of
+              the top table - each with a closure no other line reaches - and below them;
   * EVOLVE  : newer versions declared, `current` moved or removed;
   * REPLAY  : the expanded text written over the installed table (what `expandtable -i` does), then
               `setup --exact top v` in a fresh environment; compared with Model/Setup.v run on the evolved
@@ -48,7 +61,9 @@ Oracles (the property text, evaluated on what the real code produced; the first 
   other-lines      the non-setup lines of the expanded text are the input's, unchanged and in order - in the exact and
                    in the non-exact reading; when the input has itself been expanded before, its own lines are those a
                    reader sees through the blocks the earlier expansion wrote (input_views)
-  inexact          the non-exact branch carries every setup line with its original constraint
+  inexact          the non-exact branch carries every setup line with its original constraint (with eups expandtable -N the
+                   user asks for a table without relational expressions: the line, its command, product, flags and a
+                   version that is the original or the set-up one are still demanded, the expression is not)
   exact-reproduces-missing / -extra   conflict-free build => the replay records every build-time version / nothing else
 (an expansion that raises is not judged: the property speaks about tables that were expanded; such cases are counted in
 the input distribution as .../raise and still compared with the model)
@@ -573,6 +588,100 @@ def gen_spelling_case(rng):
             "texts": [vary_text(rng, prods["p4"][v["p4"]])], "reexpand": False}
 
 
+# ---- versions over the whole legal alphabet
+
+# A version is any text without blanks (and, on a table line, without brackets or a leading dash): letters, digits,
+# dots, underscores, plus signs - and dashes, followed by anything: 2.3-jdk11, 1.0-jessie (dash j), 1.0-t2 and 3.1-k8
+# (other flag letters), 2.0--1 (two dashes), 1.2+4, v1_2-rc1, 7-f.  Ordinary versions are mixed in.
+DASH_VERSIONS = ["2.3-jdk11", "1.0-jessie", "12-jenkins3", "1.5-j", "0.9-java8", "1.0-t2", "3.1-k8", "2.0--1", "1.1--j2",
+                 "v1_2-rc1", "7-f", "1.2+4", "1.2+4-jre", "2.0-external", "1.0-B", "6.0-r2-j1"]
+
+
+def gen_version_alphabet_case(rng):
+    """directed family: products set up at versions drawn from the whole legal alphabet (dashes followed by letters that
+    are also setup flags: -j -t -k -f -r, two dashes, plus signs), named on the lines of the top table and below them.
+        p6 (top) -> p5, p4 [, p1];   p5 -> p3;   p4 -> p2;   p3 -> p1;   p2 -> p1 (sometimes)
+    so that every line of the top table names a product with a closure of its own that no other line reaches."""
+    P = "envPrepend(PATH, ${PRODUCT_DIR}/bin)"
+    names = ("p1", "p2", "p3", "p4", "p5", "p6")
+    v = {n: (rng.choice(DASH_VERSIONS) if rng.random() < 0.6 else rng.choice(setupsim.VERSIONS)) for n in names}
+    v["p6"] = rng.choice(setupsim.VERSIONS)
+
+    def req(n):
+        return rng.choice(["%s", "%s", "%s %s", "%s >= 0.1", "%s %s [>= 0.1]"]).replace("%s", n, 1).replace("%s", v[n])
+    tables = {"p1": [P], "p2": [P], "p3": [P, "setupRequired(%s)" % req("p1")], "p4": [P, "setupRequired(%s)" % req("p2")],
+              "p5": [P, "setupRequired(%s)" % req("p3")]}
+    if rng.random() < 0.4:
+        tables["p2"].append("setupRequired(%s)" % req("p1"))
+    if rng.random() < 0.3:
+        tables["p4"].append("envSet(P4_HOME, ${PRODUCT_DIR}/home)")
+    top = [P, "setupRequired(%s)" % req("p5"), rng.choice(OTHER_LINES) % 1,
+           "%s(%s)" % (rng.choice(["setupRequired", "setupOptional"]), req("p4"))]
+    if rng.random() < 0.25:
+        top.append("setupRequired(%s)" % req("p1"))
+    if rng.random() < 0.25:
+        top.insert(1, "setupOptional(nosuch)")
+    prods = {n: {v[n]: tables[n]} for n in tables}
+    for n in ("p1", "p2", "p3"):
+        if rng.random() < 0.4:                  # another version, ordinary or not, that is not current
+            other = rng.choice([u for u in DASH_VERSIONS + setupsim.VERSIONS if u != v[n]])
+            prods[n][other] = list(tables[n])
+    prods["p6"] = {v["p6"]: decorate(rng, top, flavors=(FLAVOR,)) if rng.random() < 0.5 else top}
+    world = {"root": "stack", "products": prods, "current": {n: v[n] for n in prods}, "generic": gen_generic(rng, prods)}
+    ops = []
+    for n in ("p1", "p2", "p3", "p4", "p5"):
+        r = rng.random()
+        if r < 0.6:
+            ops.append({"op": "declare", "name": n, "version": rng.choice(["4.0", "4.0", "9.9-jumbo"]),
+                        "lines": [P], "current": rng.random() < 0.85})
+        elif r < 0.7:
+            ops.append({"op": "uncurrent", "name": n})
+    rng.shuffle(ops)
+    return {"world": world, "top": "p6", "topv": v["p6"], "plist": {}, "force": False, "evolve": ops,
+            "texts": [vary_text(rng, prods["p6"][v["p6"]])] if rng.random() < 0.5 else [],
+            "reexpand": rng.random() < 0.5, "install_reexpanded": rng.random() < 0.3}
+
+
+def gen_switch_case(rng):
+    """directed family for the switches of the entrances (app.expandTableFile keywords, eups expandtable -N / --noExact):
+    a top table whose lines carry constraints of every form - bare, a version, a relational expression, a version with a
+    bracketed expression - over a chain with newer current versions declared afterwards
+        p4 (top) -> p3, p2;   p3 -> p1;   p2 -> p1"""
+    P = "envPrepend(PATH, ${PRODUCT_DIR}/bin)"
+    v = {n: rng.choice(setupsim.VERSIONS) for n in ("p1", "p2", "p3", "p4")}
+
+    def req(n):
+        return rng.choice(["%s", "%s %s", "%s >= 0.1", "%s %s [>= 0.1]", "%s [>= 0.1]", "%s >= 0.1", "%s %s [>= 0.1 || == 0.05]"]
+                          ).replace("%s", n, 1).replace("%s", v[n])
+    top = [P, "setupRequired(%s)" % req("p3"), rng.choice(OTHER_LINES) % 1,
+           "%s(%s)" % (rng.choice(["setupRequired", "setupOptional"]), req("p2"))]
+    if rng.random() < 0.3:
+        top.append("setupOptional(nosuch [>= 1.0])")
+    if rng.random() < 0.3:
+        top.insert(1, "")
+    prods = {"p1": {v["p1"]: [P]}, "p2": {v["p2"]: [P, "setupRequired(%s)" % req("p1")]},
+             "p3": {v["p3"]: [P, "setupRequired(p1 %s)" % v["p1"]]},
+             "p4": {v["p4"]: decorate(rng, top, flavors=(FLAVOR,)) if rng.random() < 0.5 else top}}
+    world = {"root": "stack", "products": prods, "current": {n: v[n] for n in prods}, "generic": gen_generic(rng, prods)}
+    ops = [{"op": "declare", "name": n, "version": "4.0", "lines": [P], "current": True} for n in ("p1", "p2", "p3")
+           if rng.random() < 0.8]
+    rng.shuffle(ops)
+    ev, ab = rng.choice([(False, True), (False, True), (True, False), (True, False), (False, False)])
+    return {"world": world, "top": "p4", "topv": v["p4"], "plist": {}, "force": False, "evolve": ops,
+            "texts": [vary_text(rng, prods["p4"][v["p4"]])] if rng.random() < 0.4 else [],
+            "reexpand": rng.random() < 0.6, "install_reexpanded": rng.random() < 0.3,
+            "opts": {"ev": ev, "ab": ab, "via": rng.choice(["app", "cmd"]), "long": rng.random() < 0.3}}
+
+
+def gen_opts(rng):
+    """the entrance and its switches for a case of any family: app.expandTableFile or the eups expandtable command, each
+    switch on (three cases in four: both) or off"""
+    r = rng.random()
+    ev, ab = (True, True) if r < 0.75 else (False, True) if r < 0.87 else (True, False) if r < 0.96 else (False, False)
+    return {"ev": ev, "ab": ab, "via": "cmd" if rng.random() < 0.35 else "app", "long": rng.random() < 0.3,
+            "explicit": rng.random() < 0.5}
+
+
 # ---- versions named like tags
 
 # names the tag registry recognises: global tags (current, stable, latest) and the user's own tag (the user name)
@@ -623,7 +732,7 @@ def gen_tagname_case(rng):
     if rng.random() < 0.3:
         top.append("setupRequired(p1%s)" % req["p1"])
     prods["p4"] = {v["p4"]: decorate(rng, top, flavors=(FLAVOR,)) if rng.random() < 0.5 else top}
-    world = {"root": "stack", "products": prods, "current": current, "generic": gen_generic(rng, prods), "tags": tags}
+    world = {"root": "stack", "products": prods, "current": current, "generic": gen_generic(rng, prods), "tags_by_tag": tags}
     ops = []
     for n in ("p1", "p2", "p3"):
         r = rng.random()
@@ -746,7 +855,7 @@ def run_case(case):
     out = {}
     try:
         stack, userdata = setupsim.materialise(work, world)
-        for tag, where in sorted((world.get("tags") or {}).items()):
+        for tag, where in sorted((world.get("tags_by_tag") or {}).items()):
             for n, v in sorted(where.items()):
                 sys.modules["eups.db.Database"]._databases.clear()
                 eups.Eups(quiet=1, flavor=setupsim.flavor_of(world, n)).assignTag(tag, n, v)
@@ -821,11 +930,54 @@ def run_case(case):
                         raw["%s %s" % (n, v)] = "raise:" + type(ex).__name__
             return raw
 
-        def expand(e, text=None):
+        opts = case.get("opts") or {}
+        ev, ab, via = bool(opts.get("ev", True)), bool(opts.get("ab", True)), opts.get("via", "app")
+
+        def expand_cmdline(text):
+            # eups expandtable [-N] [--noExact] [-F] [-p a=1:b=2] -i <dir>/<top>.table : the command makes its own Eups
+            # from the environment, reads the file, and renames the expanded text over it
+            import eups.cmd
+            d = os.path.join(work, "cmdline")
+            os.makedirs(d, exist_ok=True)
+            path = os.path.join(d, top + ".table")
+            with open(path, "w") as f:
+                f.write(text)
+            args = ["expandtable", "--nolocks", "-q", "-i"]
+            if not ev:
+                args.append("--noVersionExpressions" if opts.get("long") else "-N")
+            if not ab:
+                args.append("--noExact")
+            if case["force"]:
+                args.append("-F")
+            if case["plist"]:
+                args += ["-p", ":".join("%s=%s" % kv for kv in sorted(case["plist"].items()))]
+            args.append(path)
+            sys.modules["eups.db.Database"]._databases.clear()
+            try:
+                status = eups.cmd.EupsCmd(args=args, toolname="eups").run()
+            except SystemExit as ex:
+                return {"raise": "SystemExit", "msg": str(ex.code)}
+            except Exception as ex:  # noqa
+                return {"raise": type(ex).__name__, "msg": str(ex)[:300]}
+            if status:
+                return {"raise": "status", "msg": str(status)}
+            with open(path) as f:
+                return {"text": f.read()}
+
+        def expand(e, text=None, entrance="app"):
+            if text is None:
+                text = text_in
+            if entrance == "cmd":
+                return expand_cmdline(text)
             ofd = io.StringIO()
             try:
-                eups.expandTableFile(ofd, io.StringIO(text_in if text is None else text), dict(case["plist"]),
-                                     None, e, bool(case["force"]), toplevelName=top)
+                # app.expandTableFile, the switches by keyword as the command line passes them
+                kw = {"toplevelName": top}
+                if not ev or opts.get("explicit"):
+                    kw["expandVersions"] = ev
+                if not ab or opts.get("explicit"):
+                    kw["addExactBlock"] = ab
+                eups.expandTableFile(ofd, io.StringIO(text), dict(case["plist"]), None, e, bool(case["force"]), **kw)
                 return {"text": ofd.getvalue()}
             except Exception as ex:  # noqa
                 return {"raise": type(ex).__name__, "msg": str(ex)[:300]}
@@ -851,7 +1003,7 @@ def run_case(case):
         os.environ.update(benv)
         e = _fresh_eups(eups)
         e.selectVRO(None, None, None, None)
-        out["expand"] = expand(e)
+        out["expand"] = expand(e, entrance=via)
         # ---- TEXTS: further table texts, expansion only (fresh instance, build environment)
         texts = [dict(t) for t in case.get("texts", [])]
         if case.get("reexpand") and "text" in out["expand"]:
@@ -861,9 +1013,10 @@ def run_case(case):
             os.environ.update(benv)
             e = _fresh_eups(eups)
             e.selectVRO(None, None, None, None)
-            t["result"] = expand(e, t["text"])
+            t["result"] = expand(e, t["text"], entrance=via)
         out["texts"] = texts
-        if "raise" in out["expand"]:
+        if "raise" in out["expand"] or not ab:
+            # (without the exact block - eups expandtable --noExact - there is nothing to replay in exact mode)
             return out
         # the table that is installed and later set up in exact mode: the expanded text - or, where the case says so,
         # the text of its re-expansion (eups expandtable -i run twice; an installed product that is packaged)
@@ -994,8 +1147,13 @@ def constraint(c):
 
 
 def oracle_text(case, built, text, in_lines=None, clauses=(1, 2, 3)):
-    """the clauses that speak about the expanded text alone: (1) pins, (2) other lines, (3) non-exact branch"""
+    """the clauses that speak about the expanded text alone: (1) pins, (2) other lines, (3) non-exact branch
+    With eups expandtable -N (expandVersions off) the user asks for a table without relational expressions: clause (3)
+    then still demands every setup line, its command, product, flags, and a version that is the original or the set-up one,
+    but not the expression.  With --noExact (addExactBlock off) the clauses are unchanged: the whole text is what a reader
+    sees in either mode."""
     top, topv = case["top"], case["topv"]
+    want_expressions = bool((case.get("opts") or {}).get("ev", True))
     if in_lines is None:
         in_lines = case["world"]["products"][top][topv]
     lines = norm_text(text)
@@ -1051,7 +1209,7 @@ def oracle_text(case, built, text, in_lines=None, clauses=(1, 2, 3)):
                 continue
             version, expr = constraint(w)
             gversion, gexpr = constraint(c)
-            if expr and gexpr != expr:
+            if expr and gexpr != expr and want_expressions:
                 yield ("inexact", w[7], g, "the original expression [%s] is not carried" % expr)
             if version and name not in case["plist"] and gversion != version:
                 yield ("inexact", w[7], g, "the original version %s is not carried" % version)
@@ -1141,8 +1299,14 @@ def xtext_line(case, res, text, rawkey="rawdeps"):
         if isinstance(deps, str):
             continue            # getDependencies raised for this product: the model has no list for it (as app.getDependencies)
         raw.append("%s:%s:%s" % (enc(name), enc(v), "+".join("%s,%s,%d" % (enc(d[0]), "1" if d[1] else "0", d[2]) for d in deps)))
-    return "\t".join(["xtext", "|".join(prods), common.enc_env(res["build"]["env"]), enc(top),
-                      common.enc_env(case["plist"]), "1" if case["force"] else "0", enc(text), "|".join(raw)])
+    o = case.get("opts") or {}
+    f = ["xtext", "|".join(prods), common.enc_env(res["build"]["env"]), enc(top),
+         common.enc_env(case["plist"]), "1" if case["force"] else "0", enc(text), "|".join(raw)]
+    if not (o.get("ev", True) and o.get("ab", True)):
+        # Model/ExpandOpt.v: the expansion with the two switches (at their defaults it is expand_text: a theorem)
+        f[0] = "xtextopt"
+        f.append("%s,%s" % ("1" if o.get("ev", True) else "0", "1" if o.get("ab", True) else "0"))
+    return "\t".join(f)
 
 
 def xtext_result(line):
@@ -1228,7 +1392,23 @@ def evaluate(ctx, cases, results):
             if res.get("rawdeps_same") != res.get("rawdeps"):
                 ctx.bump("dependency-lists-differ-between-instances")
             top_text = "\n".join(c["world"]["products"][c["top"]][c["topv"]]) + "\n"
-            wtags = c["world"].get("tags") or {}
+            o = c.get("opts") or {}
+            default_opts = o.get("ev", True) and o.get("ab", True)
+            ctx.bump("entrance:%s/expandVersions=%s,addExactBlock=%s/%s" % (
+                {"app": "app.expandTableFile", "cmd": "eups-expandtable-command"}[o.get("via", "app")],
+                "on" if o.get("ev", True) else "off", "on" if o.get("ab", True) else "off", "raise" if "raise" in x else "written"))
+            if "text" in x and not default_opts:
+                lines_x = norm_text(x["text"])
+                ctx.bump("switch-off/exact-block-%s/expressions-%s" % (
+                    "written" if any(IF_EXACT_RE.match(ln) for ln in lines_x) else "absent",
+                    "written" if any(SETUP_RE.search(ln) and "[" in ln for ln in lines_x) else "absent"))
+            for n, ver in sorted(b["records"].items()):
+                if re.search(r"-[a-zA-Z-]", ver):
+                    ctx.bump("set-up-version-with-a-dash-word" + ("/holds-dash-j" if "-j" in ver else "") +
+                             ("/named-on-a-line-of-the-top-table" if any(
+                                 is_setup_line(ln) and re.search(r"\(\s*%s[\s,)]" % re.escape(n), ln)
+                                 for ln in c["world"]["products"][c["top"]][c["topv"]]) else "/below"))
+            wtags = c["world"].get("tags_by_tag") or {}
             for n, ver in sorted(b["records"].items()):
                 if ver in TAG_NAMES:
                     tagged = c["world"]["current"].get(n) if ver == "current" else wtags.get(ver, {}).get(n)
@@ -1243,8 +1423,9 @@ def evaluate(ctx, cases, results):
                 if res.get(key) is None:
                     continue
                 try:
-                    exp_lines.append(expand_line(c, res, rawkey))
-                    exp_idx.append((i, key))
+                    if default_opts:        # (level B knows the defaults only; the switches are in the text model)
+                        exp_lines.append(expand_line(c, res, rawkey))
+                        exp_idx.append((i, key))
                 except OutOfGrammar:
                     ctx.bump("out-of-grammar")
                 # level A in the model: the text of the table
@@ -1352,14 +1533,17 @@ def shrink_view(c, res, key="expand"):
             "plist": c["plist"], "force": c["force"], "evolve": c["evolve"], "world": c["world"],
             "texts": c.get("texts", []), "reexpand": c.get("reexpand", False),
             "install_reexpanded": c.get("install_reexpanded", False), "build_deps": c.get("build_deps"),
+            "opts": c.get("opts") or {},
             "installed": res.get("installed") if res.get("installed") != (res.get(key) or {}).get("text") else None}
 
 
 def case_of(inp):
+    if "tags" in inp["world"]:          # (witnesses written before harness/setupsim.py took the key tags for itself)
+        inp["world"]["tags_by_tag"] = inp["world"].pop("tags")
     return {"world": inp["world"], "top": inp["top"], "topv": inp["topv"], "plist": inp.get("plist", {}),
             "force": inp.get("force", False), "evolve": inp.get("evolve", []), "texts": inp.get("texts", []),
             "reexpand": inp.get("reexpand", False), "install_reexpanded": inp.get("install_reexpanded", False),
-            "build_deps": inp.get("build_deps")}
+            "build_deps": inp.get("build_deps"), "opts": inp.get("opts") or {}}
 
 
 def explore(ctx, cases):
@@ -1551,6 +1735,12 @@ def setup_ctx(ctx):
                 "one case in 8 from a fifth (the top table was expanded by an earlier build: exact block with stale pins at the "
                 "first line or behind comments / commands / a block on type != exact, generated lines in other spellings, envSet "
                 "lines and a flavor conditional behind the setups; dependencies set up one by one: top-table-expanded-before/<shape>); "
+                "two cases in 16 from a sixth family (versions over the whole legal alphabet - dashes followed by flag letters, two "
+                "dashes, plus signs: set-up-version-with-a-dash-word[/holds-dash-j]/named-on-a-line-of-the-top-table | /below); two in "
+                "16 from a seventh (one or both switches off over lines with constraints of every form); every case carries an "
+                "entrance (app.expandTableFile 65% / the eups expandtable command 35%) and the switches expandVersions, addExactBlock "
+                "(both on 75%, -N 12%, --noExact 9%, both off 4%): entrance:<entrance>/expandVersions=..,addExactBlock=../<verdict>, "
+                "switch-off/exact-block-<written|absent>/expressions-<written|absent>; "
                 "productList overrides (12%) and --force "
                 "(10%); the database then gains newer versions and current moves; a case is non-trivial when the build "
                 "succeeded and set up at least two products; distinct = distinct (tables, top product, productList)")
@@ -1578,7 +1768,10 @@ def setup_ctx(ctx):
                        "expression C10's model of version_match does not model; lines naming eups are modelled but cannot stand in "
                        "a table that is set up here (Eups.setup of such a line needs eups' own version, empty in this checkout): "
                        "they occur in the further texts only",
-                       "expandVersions and addExactBlock at their defaults (True)"]
+                       "recurse at its default (True: no entrance passes it); eups expandtable is driven in place (-i) on a file "
+                       "named <product>.table, not to standard output, an output directory, or with -P / -w / -W",
+                       "with eups expandtable -N the clause on the original constraints is not demanded of the expressions (the "
+                       "option asks for a table without them); with --noExact nothing is replayed in exact mode"]
 
 
 def run(ctx):
@@ -1587,11 +1780,15 @@ def run(ctx):
     cases = corpus_cases()
     n = ctx.size(600, 5000)
     for k in range(n):
-        cases.append(gen_shared_case(ctx.rng) if k % 16 == 7 else
+        cases.append(gen_version_alphabet_case(ctx.rng) if k % 16 in (6, 15) else
+                     gen_switch_case(ctx.rng) if k % 16 in (2, 10) else
+                     gen_shared_case(ctx.rng) if k % 16 == 7 else
                      gen_tagname_case(ctx.rng) if k % 16 == 9 else
                      gen_installed_case(ctx.rng) if k % 16 in (1, 13) else
                      gen_failed_optional_case(ctx.rng) if k % 8 == 3 else
                      gen_spelling_case(ctx.rng) if k % 16 == 5 else gen_case(ctx.rng))
+        if "opts" not in cases[-1]:
+            cases[-1]["opts"] = gen_opts(ctx.rng)
     for c in cases[:2]:
         ctx.sample({"top": c["top"], "topv": c["topv"], "table": c["world"]["products"][c["top"]][c["topv"]]})
     step = 2000
